@@ -12,7 +12,7 @@ function (if a, b share exactly k bits they agree under top_k and differ under t
 function-ness gives >= k shared image bits, injectivity at k+1 gives exactly k)."""
 import json
 
-from mc import choices
+from mc import choices, refs
 from mc.runner import Part, Res
 from props import ipdom
 
@@ -194,7 +194,22 @@ class FullWidth(Part):
         if bad:
             res.violation("cpl-not-preserved|" + cfg["fam"], "cfg %r: %s" % (base, bad[1]),
                           dict(base, only=[bad[2], bad[3]]))
-        # fresh-instance spot check: images do not depend on what this instance saw before
+        if cfg["fam"] == "4" and cfg.get("networks"):
+            # the mapping as applied to text: preserved addresses stay, everything else is mapped
+            m = ipdom.mod()
+            lin = ipdom.make(cfg)
+            eff = []
+            for a in W:
+                if refs.is_mask32(a):
+                    continue
+                t = m.anonymize_ip_addr(lin, "x %s y" % refs.v4_text(a), False).split()[1]
+                eff.append((a, refs.v4_token_value(t) if refs.v4_token_value(t) is not None else -1))
+            res.evals += len(eff)
+            bad = check_map(eff, L)
+            if bad:
+                res.violation("cpl-not-preserved-by-applied-mapping|4",
+                              "cfg %r (mapping as applied to text, preserved networks kept): %s" % (base, bad[1]),
+                              dict(base))
         if "only" not in cfg:
             res.samples.append({"cfg": base, "addresses": len(W),
                                 "pairs_decided": len(W) * (len(W) + 1) // 2})
